@@ -71,6 +71,35 @@ add("C35", "crashlab", "fault_enumeration",
     "Runs with the real background loop ended by graceful Shutdown() at seeded points (also with a request in flight): dumps of the full query and six restricted queries per bucket before the request, after Shutdown() and after a real restart must agree; the WAL left behind must need no replay.",
     CRASH_NOTE, "record + compare of client-visible results across shutdown/restart", "DESIGN.md 4 C35")
 
+PURE_NOTE = "The real functions are called in-process (checkptr build; ASan build for the wire monitors in the thorough tier) on generated inputs; the oracle is an executable reference written from the property text. Held on the inputs generated for the seed."
+add("C21", "puremon", "exploration",
+    "TickCandler / CandleCandler are driven directly and through AggRunner on generated row sets (1-500 rows, 1-6 windows, ties, extreme/negative prices, several permutations per set, three time zones, all candle timeframes, Sum/Avg columns of all numeric types); output compared with a reference fold keyed by the window definition; order-independence checked for distinct timestamps.",
+    PURE_NOTE + " Multi-day/-week/-month windows are executed but not asserted (the property fixes no alignment for them).", "reference-fold monitor on the real candlers", "DESIGN.md 4 C21")
+add("C22", "puremon", "exploration",
+    "All 78 (fine, coarse) timeframe pairs where fine divides coarse x generated tick sets x 3 zones: CandleCandler(coarse)(TickCandler(fine)(rows)) must equal TickCandler(coarse)(rows) on Epoch/Open/High/Low/Close; a stratum aimed at local midnight re-demonstrates F-TZALIGN.",
+    PURE_NOTE, "metamorphic monitor (two real executions compared)", "DESIGN.md 4 C22")
+add("C23", "puremon", "exploration",
+    "count/min/max/avg over all ten numeric column types x lengths {0,1,2,3,10,1000} x value shapes, directly and through AggRunner.Run with the query API's syntax; gap with explicit thresholds on epoch sequences with planted gaps of threshold-1/threshold/threshold+1.",
+    PURE_NOTE + " avg compared in single precision; empty input only has to not panic.", "reference-value monitor on the real aggregates", "DESIGN.md 4 C23")
+add("C27", "puremon", "exploration",
+    "Random ColumnSeriesMaps over all wire types (0-200 rows, 1-5 buckets, unicode names) through NewNumpyDataset / NewNumpyMultiDataset / Append -> msgpack -> ToColumnSeriesMap and the MultiQueryResponse path; buckets, names, order, types and values (bit-exact) must survive.",
+    PURE_NOTE, "round-trip assertion monitor (checkptr + ASan builds)", "DESIGN.md 4 C27")
+add("C28", "puremon", "exploration",
+    "Transaction groups captured from the real write path (ReplicationSender hook point) and hand-built commands inside the measured acceptance envelope are decoded by ParseTGData and by an independent decoder; both must return the original path, record type, offset, index, payload, VarRecLen and schema.",
+    PURE_NOTE + " What counts as 'can be accepted' is measured in-run through WriteCSM/Create.", "round-trip monitor with an independent decoder (checkptr + ASan builds)", "DESIGN.md 4 C28")
+add("C29", "puremon", "exploration",
+    "All schemas of 1-4 columns over the ten fixed-width types + STRING16 (thorough: exhaustive, 16 105 schemas) and sampled 5-8 column schemas, aligned and unaligned, Epoch in any position, boundary and random values: SerializeColumnsToRows -> NewRowSeries -> ToColumnSeries must return the input; record length checked.",
+    PURE_NOTE, "round-trip assertion monitor (checkptr + ASan builds)", "DESIGN.md 4 C29")
+add("C30", "puremon", "exploration",
+    "Per (zone, year, timeframe): every interval start of the year for timeframes >= 1Min, 1 s grids around every DST transition and year edge, seeded timestamps for second-level timeframes; five zones + time.Local != configured zone; slot <-> start conversions, injectivity and data-area bounds asserted.",
+    PURE_NOTE + " Zones from the system zoneinfo; a missing zone is skipped and counted.", "law-checking monitor on the real index functions", "DESIGN.md 4 C30")
+add("C31", "puremon", "exploration",
+    "Every duration string <n><suffix> (n to 60 quick / 400 thorough, all suffixes, both parsers) x timestamps over three years incl. DST neighbourhoods in three zones: Truncate(t) <= t < Ceil(t), IsWithin(t, Truncate(t)), one window per timestamp, parse/print stability, QueryableTimeframe divides the duration.",
+    PURE_NOTE, "law-checking monitor on the real timeframe arithmetic (enumeration)", "DESIGN.md 4 C31")
+add("C33", "puremon", "exploration",
+    "Generated CSV files for generated schemas (valid rows; wrong field counts, bad quoting, unparsable values and timestamps at any position; header / no header; time formats and zones; chunk sizes 1..n+1) loaded with the loader's own chunk loop; either every data row is loaded with parse-equal values or an error is reported; a panic is neither.",
+    PURE_NOTE + " Timestamps are parsed by an independent time.ParseInLocation for the oracle.", "differential monitor on the real CSV loader", "DESIGN.md 4 C33")
+
 ALL = [json.loads(l) for l in open(os.path.join(V, "properties.jsonl"))]
 
 def main():
